@@ -1073,7 +1073,11 @@ func (sp *Specs) LoadFile(path, pkgRel string) error {
 			if err != nil {
 				return fail(ln, err)
 			}
-			sp.Preds[strings.TrimSpace(rest[:i])] = &Pred{Name: strings.TrimSpace(rest[:i]), Params: ps, Body: body, Pkg: pkgRel}
+			pd := &Pred{Name: strings.TrimSpace(rest[:i]), Params: ps, Body: body, Pkg: pkgRel}
+			sp.Preds[pkgRel+"::"+pd.Name] = pd
+			if _, dup := sp.Preds[pd.Name]; !dup {
+				sp.Preds[pd.Name] = pd // first definition is also reachable unqualified (from other packages)
+			}
 			cur, curLemma, curTable = nil, nil, nil
 		case "ghost":
 			if cur != nil && (strings.Contains(rest, ":=")) {
